@@ -9,6 +9,7 @@ package dtls
 // plateau test over every per-connection container.
 
 import (
+	"bytes"
 	"fmt"
 	"os"
 	"runtime"
@@ -107,10 +108,18 @@ func vfC08Cases() []vfC08Case {
 			for i := 0; i < vfPick(12, 150); i++ {
 				add(vfC08Case{Scenario: "authmal", Variant: vi, Target: tgt, Gen: "authmal", Idx: i})
 			}
+			// the authenticated peer keeps sending complete, correctly protected handshake messages with the next
+			// message numbers after the handshake has finished: more than the reassembly limit in total
+			// (DTLS 1.3: well-formed NewSessionTicket messages, which only a client accepts)
+			if !vs[vi].Cfg.Is13() || tgt == "c" {
+				add(vfC08Case{Scenario: "authmal", Variant: vi, Target: tgt, Gen: "auth-newmsgs", Idx: 0})
+			}
 			// unauthenticated ChangeCipherSpec records, one for every epoch value: outside a handshake they announce nothing
 			if nm := vs[vi].Name; nm == "12-ecdsa" || nm == "12-cid44" || nm == "13-direct" || vfThorough() {
 				add(vfC08Case{Scenario: "est", Variant: vi, Target: tgt, Gen: "ccs-sweep", Idx: 0})
 			}
+			// ... and ChangeCipherSpec records whose body is not the single byte 1, at the epochs in use
+			add(vfC08Case{Scenario: "est", Variant: vi, Target: tgt, Gen: "ccs-malformed", Idx: 0})
 		}
 	}
 	for vi := range vs {
@@ -344,6 +353,20 @@ func vfC08Limits(res *vfResult, p *vfPair, id string) {
 		if nd > 64 {
 			res.Violate("C08:limit:replayDetectors", fmt.Sprintf("%d per-epoch replay detectors are allocated on one connection", nd), map[string]any{"case": id})
 		}
+		// the transcript cache holds what the handshake exchanged; complete messages the peer sends afterwards must
+		// not pile up in it beyond what reassembly itself may hold
+		cb := 0
+		for _, it := range s.Conn.handshakeCache.VFItems() {
+			cb += len(it.Data)
+		}
+		res.Max("max_handshake_cache_bytes", int64(cb))
+		if cb > maxSize+256<<10 {
+			ver := "dtls12"
+			if _, ok := s.Conn.state.(*dtlsstate.State13); ok {
+				ver = "dtls13"
+			}
+			res.Violate("C08:limit:handshakeCache:"+ver, fmt.Sprintf("the handshake message cache of %s holds %d bytes in %d messages (reassembly limit %d bytes)", s.Name, cb, s.Conn.handshakeCache.VFLen(), maxSize), map[string]any{"case": id})
+		}
 		ts, tc, _, af, ab := s.Conn.fragmentBuffer.VFStats()
 		res.Max("max_fragment_buffer_bytes", int64(ab))
 		res.Max("max_fragment_buffer_fragments", int64(af))
@@ -399,7 +422,11 @@ func vfC08Established(res *vfResult, c vfC08Case, v vfVariant) {
 
 			return
 		}
-		b = vfGenAuthMalformed(r, tk, peer.Name, vfPick(12, 24))
+		if c.Gen == "auth-newmsgs" {
+			b = vfGenAuthNewMessages(r, tk, peer.Name, uint16(dtlsstate.HandshakeRecvSequence(target.Conn.state)), 2_400_000, is13)
+		} else {
+			b = vfGenAuthMalformed(r, tk, peer.Name, vfPick(12, 24))
+		}
 	default:
 		switch c.Gen {
 		case "raw":
@@ -412,6 +439,12 @@ func vfC08Established(res *vfResult, c vfC08Case, v vfVariant) {
 				vfHostile{Data: vfLegacyRecord(23, 0xfefd, 0, 7902, nil, -1, []byte("epoch-0 application data")), Class: "?", Note: "epoch0-appdata"})
 		case "mutate":
 			b = vfGenMutateGenuine(r, nb, genuine)
+		case "ccs-malformed":
+			for _, e := range []int{0, 1, 2, 3, 4, 0xffff} {
+				for k, body := range [][]byte{{}, {2}, {0}, {1, 1}, {0xff}, bytes.Repeat([]byte{1}, 40)} {
+					b = append(b, vfHostile{Data: vfLegacyRecord(20, 0xfefd, uint16(e), uint64(0x7700+k), nil, -1, body), Note: fmt.Sprintf("ccs-epoch%d-body%d", e, k)})
+				}
+			}
 		case "ccs-sweep":
 			for round := 0; round < 2; round++ {
 				for e := 1; e <= 0xffff; e++ {
@@ -420,7 +453,7 @@ func vfC08Established(res *vfResult, c vfC08Case, v vfVariant) {
 			}
 		}
 		vfClassify(b, is13, cidLen)
-		if c.Gen == "ccs-sweep" {
+		if c.Gen == "ccs-sweep" || c.Gen == "ccs-malformed" {
 			for i := range b {
 				b[i].Class = "forged-change-cipher-spec"
 			}
